@@ -613,6 +613,16 @@ pub fn block_edge_docs(max: usize) -> Vec<Vec<u8>> {
     out
 }
 
+/// documents whose strings use every escape of the grammar, in values and keys
+pub fn all_escapes_gen() -> DocGen {
+    DocGen {
+        leaves: gen::strs(&[gen::ALL_ESCAPES_LIT, gen::ENDS_IN_U_ESCAPE_LIT, "1", "\"\\/\""]),
+        keys: gen::strs(&["\"a\"", "\"\\/\\b\\f\\r\\t\\u0041\""]),
+        style: gen::COMPACT,
+        allow_dup_keys: false,
+    }
+}
+
 /// number shapes (integer width x fraction x exponent marker x sign, with and without 32 bytes of
 /// input after them) and containers that are empty but not minimal
 pub fn shape_docs() -> Vec<Vec<u8>> {
@@ -642,6 +652,13 @@ pub fn families_c10(tier: Tier) -> Vec<Family> {
     }
     v.push(Family::of_vec("block-edge-sweep", block_edge_docs(if q { 70 } else { 135 }), |d, ctx| check_get_doc(ctx, d, false)));
     v.push(Family::of_vec("number-shapes+spaced-empties", shape_docs(), |d, ctx| check_get_doc(ctx, d, false)));
+    {
+        // every escape kind in values and keys; a string ending in a \u escape (also as the last
+        // byte of the input)
+        let g = all_escapes_gen();
+        let n = if q { 3 } else { 4 };
+        v.push(Family::of_vec(&format!("all-escapes-docs<={n}nodes"), g.docs(n), |d, ctx| check_get_doc(ctx, d.as_bytes(), true)));
+    }
     // corpus documents: a strided selection of their paths
     {
         let docs: Vec<(String, Vec<u8>)> = gen::corpus().into_iter().filter(|(_, d)| d.len() < if q { 700_000 } else { 3 << 20 }).collect();
@@ -1044,6 +1061,12 @@ pub fn families_c11(tier: Tier) -> Vec<Family> {
         let n = if q { 3 } else { 4 };
         v.push(Family::of_vec(&format!("escaped-leaves-docs<={}nodes x path-tuples<=2", n), g.docs(n), move |d, ctx| check_get_many_doc(ctx, d.as_bytes(), 2)));
         v.push(Family::of_vec("number-shapes+spaced-empties x path-tuples<=2", shape_docs(), |d, ctx| check_get_many_doc(ctx, d, 2)));
+        let n = if q { 3 } else { 4 };
+        v.push(Family::of_vec(&format!("all-escapes-docs<={n}nodes x path-tuples<=2"), all_escapes_gen().docs(n), |d, ctx| check_get_many_doc(ctx, d.as_bytes(), 2)));
+        // structural bytes and escaped quotes inside strings at every offset of the 64-byte blocks
+        // of the container skippers, in members that are skipped on the way to the targets
+        let k = if q { 1 } else { 2 };
+        v.push(Family::of_vec(&format!("block-edge-sweep x path-tuples<={k}"), block_edge_docs(if q { 70 } else { 135 }), move |d, ctx| check_get_many_doc(ctx, d, k)));
     }
     {
         // path length + nesting of the addressed value around the parser's depth limit (512):
@@ -1498,6 +1521,17 @@ pub fn families_c12(tier: Tier) -> Vec<Family> {
         v.push(Family::of_vec("length-sweep", docs, |d, ctx| check_iter(ctx, d, false)));
     }
     v.push(Family::of_vec("number-shapes+spaced-empties", shape_docs(), |d, ctx| check_iter(ctx, d, true)));
+    {
+        let n = if q { 3 } else { 4 };
+        v.push(Family::of_vec(&format!("all-escapes-docs<={n}nodes"), all_escapes_gen().docs(n), |d, ctx| check_iter(ctx, d.as_bytes(), true)));
+    }
+    // every byte value inserted / substituted at every position of short containers
+    for (si, seed) in ["[1,\"a\",{\"k\":[2]},true]", "{\"a\":1,\"b\":[\"x\",{}],\"c\":null}", " [ 1 , \"a\" ]\n"].into_iter().enumerate() {
+        let seed = seed.as_bytes();
+        v.push(Family::new(&format!("byte-neighbourhood/seed{si}(all 256 values)"), gen::byte_neighbourhood_count(seed), move |idx, ctx| {
+            check_iter(ctx, &gen::byte_neighbourhood(seed, idx), false)
+        }));
+    }
     // corpus documents: whole, each container member of the root, and cut at evenly spaced points
     {
         let mut inputs: Vec<Vec<u8>> = vec![];
@@ -1873,6 +1907,26 @@ pub fn families_c14(tier: Tier) -> Vec<Family> {
                     .join()
                     .unwrap();
             });
+        }));
+    }
+    // (ii-00) string bodies (escape head + plain run + every B11 tail) as a key that is passed on the
+    // way, as the key that is matched, and as a value that is skipped
+    {
+        let (heads, max_run, tl) = if q { (2usize, 70u64, 3u32) } else { (3, 140, 3) };
+        v.push(Family::new("string-head-run-tail as key / skipped value", gen::head_run_tail_count(heads, max_run, tl), move |idx, ctx| {
+            let body = gen::head_run_tail_body(heads, max_run, tl, idx);
+            let cat = |parts: &[&[u8]]| parts.concat();
+            let pa = [vec![Seg::Key("a".into())]];
+            check_validating(ctx, &cat(&[b"{\"", &body, b"\":1,\"a\":2 ,\"pad\":\"pppppppppppppppppppppppppppppppppppppppp\"}"]), &pa, false);
+            check_validating(ctx, &cat(&[b"{\"x\":\"", &body, b"\",\"a\":2 ,\"pad\":\"pppppppppppppppppppppppppppppppppppppppp\"}"]), &pa, false);
+        }));
+    }
+    for (si, seed) in gen::SHORT_SEEDS.iter().enumerate() {
+        let seed = seed.as_bytes();
+        let root = refjson::parse_doc(seed, RMode::Decode).expect("seed");
+        let sp: Vec<Vec<Seg>> = refjson::all_paths(&root).into_iter().filter(|p| !p.is_empty()).collect();
+        v.push(Family::new(&format!("byte-neighbourhood/seed{si}(all 256 values)"), gen::byte_neighbourhood_count(seed), move |idx, ctx| {
+            check_validating(ctx, &gen::byte_neighbourhood(seed, idx), &sp, true)
         }));
     }
     // (ii-a) number shapes and non-minimal empty containers, every path of each
